@@ -17,8 +17,9 @@ On the models of C01 (`Model.HpackEnc` encoder, `Model.Hpack` decoder):
   (name, value) of a field written with `Sensitive = false`; `no_later_reference` — whenever a later
   field is encoded as an indexed representation, the referenced entry is a static entry or the pair
   of an earlier NON-sensitive field (a value that entered only through sensitive fields is never
-  referenced); `sensitive_only_never_stored`. (For the decoder's table the per-representation theorems
-  above say the same thing step by step; a separate history-level theorem is not stated.)
+  referenced); `sensitive_only_never_stored`. (The decoder-side history theorems are in `Proofs/C05Dec.lean`;
+  `decoder_table_provenance`, `decoder_never_resolves_sensitive`, `decoder_table_provenance_bytes`,
+  `decoder_only_incremental_adds`.)
 -/
 namespace NetVerif.Proofs.C05
 open NetVerif.Model.Hpack NetVerif.Model.HpackEnc
